@@ -650,7 +650,7 @@ class PkgGen:
         # un-annotated function whose only `return`s are the implicit ones of lambdas.  No random draws.
         m0 = modules[0]
         if not (set(m0["pkg"] + [m0["name"]]) & {"test", "tests", "docs"}) and "zz_gather" not in self.global_used:
-            self.global_used.update({"zz_gather", "zz_hook", "zz_clip", "zz_when"})
+            self.global_used.update({"zz_gather", "zz_hook", "zz_clip", "zz_when", "zz_quote"})
             par = lambda n, k, a, d=None: {"name": n, "kind": k, "ann": a, "default": d, "doc": "", "doc_type": None}
             base = {"kind": "function", "method_kind": None, "returns": None, "doc": "", "result_doc": "", "is_property": False,
                     "result_doc_type": None, "rest_type_first": True}
@@ -667,6 +667,14 @@ class PkgGen:
             m0["functions"].append({**base, "name": "zz_when", "ret": ("None",),
                                     "params": [par("zz_day", "POSITION_OR_NAME", ("cls", "date", "datetime.date")),
                                                par("zz_moment", "POSITION_OR_NAME", ("cls", "datetime", "datetime.datetime"))]})
+            # string defaults and Literal values with a double quote, a backslash, a backslash before a quote, a line break:
+            # inside a Safe-DS string literal each of them has to be escaped (not escaped before d913d69)
+            m0["functions"].append({**base, "name": "zz_quote", "ret": ("None",),
+                                    "params": [par("zz_sep", "POSITION_OR_NAME", ("str",), (repr('a"b'), 'a"b')),
+                                               par("zz_path", "POSITION_OR_NAME", ("str",), (repr("back\\slash"), "back\\slash")),
+                                               par("zz_unquote", "POSITION_OR_NAME", ("str",), (repr('q\\"x'), 'q\\"x')),
+                                               par("zz_eol", "POSITION_OR_NAME", ("str",), (repr("nl\nx"), "nl\nx")),
+                                               par("zz_mode", "POSITION_OR_NAME", ("lit", 'q"t', "b\\s", "plain"), (repr('q"t'), 'q"t'))]})
             m0["functions"].append({**base, "name": "zz_hook", "ret": None, "params": [],
                                     "extra_body": ["zz_cb = lambda: 0", "zz_cb2 = lambda: ('a', True)", "zz_cb3 = lambda: None"]})
         # members of another module reached through the module object (`import a.b as m; m.f`, `m.C`): expression types
